@@ -5,6 +5,7 @@ import (
 	"fmt"
 	"sort"
 	"strings"
+	"sync"
 
 	"github.com/celestiaorg/go-square/v2/share"
 )
@@ -237,6 +238,67 @@ func streamSparse(c *Ctx) {
 						c.sparseCase([]blobSpec{c.randBlob(nss[0], base+d, base%482 == 458%482)}, nil, 0, 0)
 					}
 				}
+			}
+		}
+	}
+	// independent objects used concurrently: 12 goroutines, each with its own splitter and blobs, must produce
+	// exactly what they produce alone (package-level scratch state would show here)
+	{
+		type job struct {
+			specs []blobSpec
+			want  string
+		}
+		jobs := make([]job, 12)
+		run := func(specs []blobSpec) string {
+			w := share.NewSparseShareSplitter()
+			for i, sp := range specs {
+				b, err := sp.blob()
+				if err != nil {
+					return "err"
+				}
+				if w.Write(b) != nil {
+					return "err"
+				}
+				if i%2 == 0 {
+					_ = w.WriteNamespacePaddingShares(1)
+				}
+			}
+			sh := w.Export()
+			back, err := share.ParseBlobs(sh)
+			if err != nil {
+				return "parse-err " + digList(sharesToBytes(sh))
+			}
+			return digList(sharesToBytes(sh)) + blobsStr(back)
+		}
+		for j := range jobs {
+			k := c.rng.Range(1, 4)
+			jobs[j].specs = make([]blobSpec, k)
+			for i := range jobs[j].specs {
+				jobs[j].specs[i] = c.randBlob(nss[c.rng.Intn(len(nss))], c.sparseLen(4), c.rng.Chance(2, 5))
+			}
+			sort.SliceStable(jobs[j].specs, func(a, b int) bool { return bytes.Compare(jobs[j].specs[a].ns, jobs[j].specs[b].ns) < 0 })
+			jobs[j].want = run(jobs[j].specs)
+		}
+		bad := make([]bool, len(jobs))
+		var wg sync.WaitGroup
+		for j := range jobs {
+			wg.Add(1)
+			go func(j int) {
+				defer wg.Done()
+				for r := 0; r < c.n(150, 1500); r++ {
+					if run(jobs[j].specs) != jobs[j].want {
+						bad[j] = true
+						return
+					}
+				}
+			}(j)
+		}
+		wg.Wait()
+		c.oracle()
+		for j := range bad {
+			if bad[j] {
+				c.violate("C08", "", "a splitter round trip on its own blobs gives a different result while other goroutines run their own round trips", "", nil)
+				break
 			}
 		}
 	}
